@@ -623,6 +623,33 @@ package websocket
 //@ ensures [close-sent-kept] {C16} c.closeSent == old(c.closeSent)
 //@ ensures [fails-after-close] {C16} old(c.closeSent) && c.copts == nil ==> result1 != nil
 
+//@ func (*Conn).Write
+//@ note public entry point: the clauses of (*Conn).write, re-stated over the wrapped error
+//@ opt noframe=mem:u8
+//@ tags C02 C01 C05
+//@ requires connInv(c) && specWriteInv(c) && ctx != nil && !gvcHeld(c.msgWriter.mu.ch) && !gvcHeld(c.msgWriter.writeMu.ch) && !gvcHeld(c.writeFrameMu.ch) && (typ == MessageText || typ == MessageBinary) && len(p) < 1<<56
+//@ requires [alias] len(p) == 0 || ((c.client ==> gvcRegion(c.writeBuf) != gvcRegion(p)) && gvcRegion(c.writeHeaderBuf[:]) != gvcRegion(p))
+//@ requires [flate-owner] (c.msgWriter.flateWriter != nil ==> ghconnW(ghfw(c.msgWriter.flateWriter).dst) == c) && (c.copts == nil ==> c.msgWriter.flateWriter == nil)
+//@ modifies $WRFP, chanstate(c.msgWriter.mu.ch), chanstate(c.msgWriter.writeMu.ch), c.msgWriter.ctx, c.msgWriter.opcode, c.msgWriter.flate, c.msgWriter.closed, c.msgWriter.trimWriter, c.msgWriter.flateWriter, ghfw(c.msgWriter.flateWriter).dst, c.msgWriter.trimWriter.tail, bytes(c.msgWriter.trimWriter.tail)
+//@ ensures [single-frame] {C02 C01} result == nil && c.copts == nil ==> specFrameHeaderOK(c.writeHeader, c.client, true, false, opcode(typ), len(p)) && ghwr(c.bw).pos == old(ghwr(c.bw).pos)+specHdrLen(c.writeHeader)+len(p)
+//@ ensures [payload] {C02 C01} result == nil && c.copts == nil && !c.client ==> forall(0, len(p), func(k int) bool { return ghwr(c.bw).out[old(ghwr(c.bw).pos)+specHdrLen(c.writeHeader)+k] == p[k] })
+//@ ensures [released] {C05} result == nil ==> !gvcHeld(c.msgWriter.mu.ch)
+//@ ensures [closed-fails] {C06} old(gvcClosed(c.closed)) ==> result != nil
+//@ ensures [nothing-after-close] {C16} old(c.closeSent) ==> ghwr(c.bw).pos == old(ghwr(c.bw).pos) && ghwr(c.bw).buffered == old(ghwr(c.bw).buffered)
+//@ ensures [close-sent-kept] {C16} c.closeSent == old(c.closeSent)
+//@ ensures [fails-after-close] {C16} old(c.closeSent) && c.copts == nil ==> result != nil
+
+//@ func (*Conn).Reader
+//@ inline
+
+//@ func (*Conn).Writer
+//@ tags C02 C05 C06
+//@ requires connInv(c) && ctx != nil && !gvcHeld(c.msgWriter.mu.ch) && (typ == MessageText || typ == MessageBinary)
+//@ modifies chanstate(c.msgWriter.mu.ch), c.msgWriter.ctx, c.msgWriter.opcode, c.msgWriter.flate, c.msgWriter.closed, c.msgWriter.trimWriter.tail
+//@ ensures [locked] {C05} result1 == nil ==> gvcHeld(c.msgWriter.mu.ch) && c.msgWriter.opcode == opcode(typ) && !c.msgWriter.flate && !c.msgWriter.closed && c.msgWriter.ctx == ctx
+//@ ensures [failed] {C05} result1 != nil ==> result0 == nil && !gvcHeld(c.msgWriter.mu.ch)
+//@ ensures [closed-fails] {C06} old(gvcClosed(c.closed)) ==> result1 != nil
+
 // ---------------------------------------------------------------------------
 // read.go: starting a message (C03 sequencing, C08 limit reload, C05 locking)
 
